@@ -7,6 +7,10 @@ HERE = os.path.dirname(os.path.abspath(__file__))
 
 # property -> (level category, engine/world, technique, level text, level note)
 CHECKS = {
+ "C02": ("exploration", "NET+VOTEDB",
+   "deterministic simulation: real consensus engines on simulated disks/network/clock in one synctest bubble with seeded schedules, message faults, partitions and crash/restart (also at the k-th disk write); history oracle over every signed vote; plus exhaustive-ish seeded API histories of the vote database with restarts against a reference model of grants",
+   "Seeded search over schedules and fault sequences of 4-5 real ucon engines (NET) and over context/vote/restart histories of the real VoteDB (VOTEDB). Every vote that leaves an honest node enters a per-validator history that survives restarts; conflicting votes or excess next-index votes in one (round, index) are violations, minimised and replayed in a fresh process. Sampling, not proof.",
+   "Trusts: the simulator's network/miner stand-ins (documented in evidence as stubs); crash model = process death with completed puts/batches durable; certificate rounds only in VOTEDB (ACoCHTFrequency is a constant). Byzantine peers are exercised in the VOTER world, not here."),
  "C09": ("fault_enumeration", "STATE",
    "deterministic simulation: seeded operation histories with injected aborts (RevertToSnapshot at seeded points/depths/transactions), full-observation oracle, choice-log shrinking and fresh-process replay",
    "Seeded search over block/transaction/operation histories on the real StateDB (simulated disk underneath) with the abort fault injected at seeded operation indices and nesting depths, after earlier finalised transactions and after commit+reopen. Every revert is compared against a full observation taken at Snapshot. Sampling, not proof: evidence states runs, distinct histories and reach probes.",
